@@ -212,10 +212,20 @@ class TaskingEngine(metaclass=ABCMeta):
             sensor_info_list (list): list of dict
         """
         for sensor_info in sensor_info_list:
-            self.sensor_changes[sensor_info["sensor_id"]] = {
+            change = {
                 "boresight": sensor_info["boresight"],
                 "time_last_tasked": sensor_info["time_last_tasked"],
+                "target_id": sensor_info.get("target_id", -1),
             }
+            # [NOTE]: A sensor can be tasked to several targets in one timestep (all-visible decision) and
+            #   the execution jobs complete in any order. The most recent tasking wins and ties go to the
+            #   highest target ID, so that the sensor's state does not depend on the completion order.
+            previous = self.sensor_changes.get(sensor_info["sensor_id"])
+            if previous is None or (
+                float(change["time_last_tasked"]),
+                change["target_id"],
+            ) >= (float(previous["time_last_tasked"]), previous["target_id"]):
+                self.sensor_changes[sensor_info["sensor_id"]] = change
 
     def getCurrentMissedObservations(self) -> list[Observation]:
         """``list``: Returns current list of :class:`.MissedObservation` saved internally & resets transient list."""
